@@ -698,10 +698,14 @@ class BTree(Generic[KT, ET]):
         cloned = self.root.maybe_cow(self.creator)
         if cloned:
             self.root = cloned
-        elt = self.root.delete(key, None, exact)
-        if elt is not None:
-            # We deleted something
-            self.size -= 1
+        try:
+            elt = self.root.delete(key, None, exact)
+            if elt is not None:
+                # We deleted something
+                self.size -= 1
+        finally:
+            # Rebalancing on the way down may have emptied the root even if nothing
+            # was deleted in the end (missing key, or an exact delete that raised).
             if len(self.root.elts) == 0:
                 # The root is now empty.  If there is a child, then collapse this root
                 # level and make the child the new root.
